@@ -1,0 +1,96 @@
+//go:build verif
+
+package peering
+
+import (
+	"time"
+
+	"github.com/libp2p/go-libp2p/core/peer"
+)
+
+// Verification hooks (build tag "verif" only): schedule points and read-only
+// accessors for the out-of-package correspondence harness. Nothing here changes
+// the behaviour of the package when the hook variables are nil.
+
+// VerifHandler is an opaque reference to a peerHandler.
+type VerifHandler = *peerHandler
+
+// VerifSchedHook, when set, is called at every schedule point with the handler
+// and the point's name; it may block (that is how the harness orders goroutines).
+var VerifSchedHook func(h VerifHandler, point string)
+
+// VerifSpawnHook, when set, is called just before a `go handler.f()` statement.
+var VerifSpawnHook func(h VerifHandler, what string)
+
+func verifSched(ph *peerHandler, point string) {
+	if f := VerifSchedHook; f != nil {
+		f(ph, point)
+	}
+}
+
+func verifSpawn(ph *peerHandler, what string) {
+	if f := VerifSpawnHook; f != nil {
+		f(ph, what)
+	}
+}
+
+// VerifHandlerOf returns the handler currently registered for p (nil if none).
+func (ps *PeeringService) VerifHandlerOf(p peer.ID) VerifHandler {
+	ps.mu.RLock()
+	defer ps.mu.RUnlock()
+	return ps.peers[p]
+}
+
+// VerifPeer returns the peer the handler is for.
+func VerifPeer(ph VerifHandler) peer.ID { return ph.peer }
+
+// VerifTimer reports the state of the handler's reconnect timer:
+// "none" (nil), "armed" (will fire), "idle" (non-nil, fired or stopped).
+// The probe stops an armed timer and re-arms it far in the future; the harness
+// fires timers explicitly with VerifFire, never by waiting.
+func VerifTimer(ph VerifHandler) string {
+	ph.mu.Lock()
+	defer ph.mu.Unlock()
+	if ph.reconnectTimer == nil {
+		return "none"
+	}
+	if ph.reconnectTimer.Stop() {
+		ph.reconnectTimer.Reset(24 * time.Hour)
+		return "armed"
+	}
+	return "idle"
+}
+
+// VerifFire makes an armed timer fire now (its function runs in a new goroutine,
+// as for a real expiry). It reports whether the timer was armed.
+func VerifFire(ph VerifHandler) bool {
+	ph.mu.Lock()
+	defer ph.mu.Unlock()
+	if ph.reconnectTimer == nil || !ph.reconnectTimer.Stop() {
+		return false
+	}
+	ph.reconnectTimer.Reset(0)
+	return true
+}
+
+// VerifNextDelay returns the handler's current backoff value.
+func VerifNextDelay(ph VerifHandler) time.Duration {
+	ph.mu.Lock()
+	defer ph.mu.Unlock()
+	return ph.nextDelay
+}
+
+// VerifCancelled reports whether the handler's context has been cancelled.
+func VerifCancelled(ph VerifHandler) bool { return ph.ctx.Err() != nil }
+
+// VerifBackoff sets nextDelay to d and calls the real nextBackoff once.
+func VerifBackoff(d time.Duration) time.Duration {
+	ph := &peerHandler{nextDelay: d}
+	return ph.nextBackoff()
+}
+
+// Constants of the backoff arithmetic, for the harness monitor.
+const (
+	VerifMaxBackoff   = maxBackoff
+	VerifInitialDelay = initialDelay
+)
